@@ -7,3 +7,45 @@ CHECKS['C13'] = (
     'random search over task-to-pilot bindings x task states x pilot end orders through the real '
     'TaskManager/Task/Pilot code; no counterexample in the explored domain, coverage measured; not a proof',
     TB, 'DESIGN.md 4/C13')
+SCHED_TB = ('trusted base: the scheduler pair engine (mp.Queue/Event/Process, time, ru.PWatcher, ResourceManager.create '
+            'rebound in the harness process; forked child modelled as a fork-like copy sharing the two queues; yield '
+            'points at queue gets and the idle sleep), FakeRM node list built as _init_from_scratch builds it, '
+            'in-memory transport, get_version shim')
+CHECKS['C01'] = (
+    'property-based testing (Hypothesis, seeded): model-based histories through the real scheduler loop under a '
+    'deterministic cooperative scheduler, holder-set disjointness oracle at every grant; NodeList API vs occupancy model',
+    'random search over node layouts x task streams x interleavings of arrivals/completions/cancels with the real '
+    'Continuous/ContinuousJsrun code; no counterexample in the explored domain, coverage measured; not a proof',
+    SCHED_TB, 'DESIGN.md 4/C01')
+CHECKS['C02'] = (
+    'property-based testing (Hypothesis, seeded): same histories, shape oracle per grant against the task description; '
+    'NodeList.find_slots shape vs request',
+    'random search over request shapes on partially occupied pilots reached by scheduling/releasing other tasks; '
+    'validity predicate (not one expected answer) per grant; not a proof',
+    SCHED_TB + '; ContinuousJsrun slots judged for rank count and core distinctness only', 'DESIGN.md 4/C02')
+CHECKS['C03'] = (
+    'property-based testing (Hypothesis, seeded): grant/release histories, invariant "no holder => node map == initial '
+    'map and a whole-pilot probe task is granted", NodeList release vs model',
+    'random search over release orders incl. application-placed tasks and cancels of running tasks; metamorphic '
+    'restore-to-initial oracle at every idle quiescent point; executor half decided under C07; not a proof',
+    SCHED_TB, 'DESIGN.md 4/C03')
+CHECKS['C04'] = (
+    'property-based testing (Hypothesis, seeded): step-wise interleaving of the real scheduling loop (schedule = plain '
+    'data), accounting oracle over the advance/publish log, conservative reference-fit oracle for progress clauses, '
+    'targeted priority scenarios',
+    'random search over arrival orders, completion orders and cancel placements between loop steps; liveness clauses '
+    'decided per case at harness-defined quiescent points; not a proof',
+    SCHED_TB + '; progress clauses only where the implementation is obliged to see room (scattered mode, no colocate/'
+    'named env), reference fit deliberately conservative', 'DESIGN.md 4/C04')
+CHECKS['C16'] = (
+    'exhaustive enumeration of the single-message domain plus property-based testing (Hypothesis, seeded) '
+    'of message sequences under harness-scheduled delivery orders, against the forwarding expectation A.5',
+    'complete product 1 client + 0..4 pilots x originating side x channel x fwd {absent,False,True} x origin '
+    '{absent, own, every other side, unknown} (+ advance / rpc_req / rpc_res defaults and rpc round trips) through '
+    'the real Session._publish_cfg/_crosswire_proxy closures and real Client/AgentComponent publishers; random '
+    'sequences of 1-6 messages on up to 5 pilots with generated interleavings; no counterexample in the explored '
+    'domain, coverage measured; exhaustive only for single messages, not a proof for sequences',
+    TB + '; real ZMQ proxy bridges not reached; the mutant "forward flag not cleared" is observationally '
+    'equivalent for this property (origin test alone prevents the loop) and is reported in evidence '
+    '(forwarded_copy:flag_*) rather than failed',
+    'DESIGN.md 4/C16, A.5')
